@@ -325,6 +325,14 @@ def explore_session(td, spec, acc, flags=()):
             m2 = Counter({(k, None): v for k, v in mult.items()})
             p2 = {(k, None): v for k, v in probs.items()}
             msgs = check_resumed(m2, p2, newp, stream)
+            # what the quitting run had already guessed comes again only if it is tied with the saved position
+            # (a quit that arrives during the very last pre-terminal is never noticed: the run ends, nothing is saved at that point and there is
+            # nothing to resume - excluded, as in C15)
+            noticed = 'Saving Session Info' in A.stderr
+            again = [pt for pt in set(pt_events(B)) if pt in set(apts) and probs.get(pt) != newp and not (pt[0][0] == 'M')]
+            if again and noticed:
+                msgs.append('repeat: %r (prob %r) was guessed before the quit and is guessed again by the resumed run although the saved position is %r'
+                            % (again[0], probs.get(again[0]), newp))
             # A ++ B covers U
             cover = Counter(apts) + Counter(pt_events(B))
             for pt, m in mult.items():
